@@ -205,3 +205,53 @@ func retValue(ret *ssa.Return, i int) ssa.Value {
 func isRecoverBlock(b *ssa.BasicBlock) bool {
 	return b.Parent().Recover == b
 }
+
+// storesToRecvField lists Store instructions in fn whose address is field `name` of the receiver (param 0).
+func storesToRecvField(fn *ssa.Function, name string) []*ssa.Store {
+	var out []*ssa.Store
+	if len(fn.Params) == 0 {
+		return nil
+	}
+	recv := fn.Params[0]
+	for _, b := range fn.Blocks {
+		for _, in := range b.Instrs {
+			st, ok := in.(*ssa.Store)
+			if !ok {
+				continue
+			}
+			fa, ok := st.Addr.(*ssa.FieldAddr)
+			if !ok || fa.X != ssa.Value(recv) {
+				continue
+			}
+			base := fa.X.Type()
+			if pt, ok := base.Underlying().(*types.Pointer); ok {
+				base = pt.Elem()
+			}
+			if stt, ok := base.Underlying().(*types.Struct); ok && stt.Field(fa.Field).Name() == name {
+				out = append(out, st)
+			}
+		}
+	}
+	return out
+}
+
+// exitsWithoutEvent returns the returns of fn reachable from the entry without passing any of the given instructions.
+func exitsWithoutEvent(fn *ssa.Function, events []ssa.Instruction) []*ssa.Return {
+	evBlocks := map[*ssa.BasicBlock]bool{}
+	for _, e := range events {
+		evBlocks[e.Block()] = true
+	}
+	var out []*ssa.Return
+	for _, ret := range returnsOf(fn) {
+		if isRecoverBlock(ret.Block()) {
+			continue
+		}
+		if evBlocks[ret.Block()] {
+			continue // the event happens in the return's own block (stores precede the return in straight-line code)
+		}
+		if len(fn.Blocks) > 0 && reaches(fn.Blocks[0], ret.Block(), evBlocks) {
+			out = append(out, ret)
+		}
+	}
+	return out
+}
